@@ -684,10 +684,16 @@ bool Session::handle_resend_request(const unsigned seqnum, const Message *msg)
 			handle_outbound_reject(seqnum, msg, "Invalid resend range: Begin > End or Begin = 0");
 		else if (!_persist)
 		{
-			const int nxt(static_cast<int>(_next_send_seq)), nseq(begin() >= nxt ? begin() + 1 : nxt);
-			send(generate_sequence_reset(nseq, true), true, begin());
-			_next_send_seq = nseq;
-			slout_debug << "handle_resend_request scenario #" << (nseq == nxt ? 7 : 8);
+			const int nxt(static_cast<int>(_next_send_seq));
+			if (end() && end() + 1 < nxt) // range stops short of the latest message: fill the requested range only
+				send(generate_sequence_reset(end() + 1, true), true, begin());
+			else
+			{
+				const int nseq(begin() >= nxt ? begin() + 1 : nxt);
+				send(generate_sequence_reset(nseq, true), true, begin());
+				_next_send_seq = nseq;
+				slout_debug << "handle_resend_request scenario #" << (nseq == nxt ? 7 : 8);
+			}
 		}
 		else
 		{
@@ -726,7 +732,15 @@ bool Session::retrans_callback(const SequencePair& with, RetransmissionContext& 
 			//cout << "#4" << endl;
 		}
 		*/
-		if (!rctx._last) // start to infinity requested
+		if (rctx._end && rctx._end + 1 < rctx._interrupted_seqnum)
+		{
+			// requested range stops short of the latest message: fill what is left of the requested range only,
+			// the numbers after it were not asked for and may hold stored messages
+			const unsigned first(rctx._last ? rctx._last + 1 : rctx._begin);
+			if (first <= rctx._end)
+				send(generate_sequence_reset(rctx._end + 1, true), true, first);
+		}
+		else if (!rctx._last) // start to infinity requested
 		{
 			// handle case where requested seq is greater than current last sent seq (interrupted)
 			const unsigned nseq(rctx._begin >= rctx._interrupted_seqnum ? rctx._begin + 1 : rctx._interrupted_seqnum);
